@@ -67,7 +67,7 @@ class C08(Prop):
         sends = st.lists(st.fixed_dictionaries({
             "when": send_when, "do": st.lists(st.sampled_from(SEND_ACTIONS), min_size=1, max_size=2)}), max_size=3)
         return st.fixed_dictionaries({
-            "mode": st.sampled_from(["client_first", "client_first", "server_first", "server_first", "client_only",
+            "mode": st.sampled_from(["client_first", "client_first", "server_first", "server_first", "client_only", "crossing",
                                      "close_in_closing"]),
             "pre": msgs, "mid": msgs,
             "close_at": trig_before, "close_args": close_args,
@@ -96,6 +96,7 @@ class C08(Prop):
                 {"mode": "server_first", "server_close": {"kind": "close", "code": None}},
                 {"mode": "client_first", "server_close": {"kind": "close", "code": 1000, "reason": "ok then"}},
                 {"mode": "client_only", "server_close": {"kind": "close", "code": 1000, "reason": ""}},
+                {"mode": "crossing", "server_close": {"kind": "close", "code": 1000, "reason": "crossed"}},
             ]
             for kind in build.PRELUDE_KINDS:
                 for same in (True, False):
@@ -109,13 +110,19 @@ class C08(Prop):
                 "eof": "after_pause", "seg": "whole", "close_timeout": 30.0}
         small = [dict(base, mode="server_first", server_close={"kind": "close", "code": 1000, "reason": "bye"}),
                  dict(base, mode="client_first", server_close={"kind": "close", "code": 1001, "reason": "ok then"}),
-                 dict(base, mode="close_in_closing", server_close={"kind": "close", "code": None})]
+                 dict(base, mode="close_in_closing", server_close={"kind": "close", "code": None}),
+                 dict(base, mode="crossing", server_close={"kind": "close", "code": 1000, "reason": "crossed"})]
         from harness.runner import with_noise, with_companion
         return [Enumeration("closing_handshakes_after_every_kind_of_earlier_connection", after_every_prelude,
                             exhaustive=True), with_noise(small), with_companion(small)]
 
     def run_case(self, case):
         mode = case["mode"]
+        # "crossing": the application closes first, but the server's Close is ALREADY on its way - it arrives in
+        # the same read as the message at which the application calls close() (judged like client_first)
+        crossing = mode == "crossing"
+        if crossing:
+            mode = "client_first"
         pre = build.build_session(case["pre"])
         mid = build.build_session(case["mid"]) if mode in ("client_first", "client_only") else build.build_session([])
         sc = case["server_close"]
@@ -147,7 +154,11 @@ class C08(Prop):
         seg = effective_seg(case["seg"], reply_len + len(pre.data) + len(mid.data) + 140)
         script = [["wait_request"], ["stream", [["reply", None], ["bytes", bytes(pre.data)]], seg, 0.0]]
         eof = case["eof"]
-        if mode == "client_first":
+        if crossing:
+            whole = bytes(pre.data) + bytes(mid.data) + bytes(sc_built.data)
+            script = [["wait_request"], ["stream", [["reply", None], ["bytes", whole]], case["seg"] if case["seg"] in (
+                "whole", "bytewise") else "whole", 0.0]]
+        elif mode == "client_first":
             script += [["wait_close"], ["stream", [["bytes", bytes(mid.data) + bytes(sc_built.data)]], seg, 0.5]]
         elif mode == "client_only":
             script += [["wait_close"], ["stream", [["bytes", bytes(mid.data)]], seg, 0.5]]
@@ -165,7 +176,7 @@ class C08(Prop):
                              connect_opts={"close_timeout": case.get("close_timeout"), "ping_rate": 0})
         tr = simnet.run_scenario(scn)
         names = tr.names()
-        labels = {"mode:" + mode, "eof:" + eof, "close_timeout:%r" % (case.get("close_timeout"),)}
+        labels = {"mode:" + ("crossing" if crossing else mode), "eof:" + eof, "close_timeout:%r" % (case.get("close_timeout"),)}
         if tr.hang or tr.horizon:
             return failed("hang", "%s; events %s" % (tr.hang or "did not end by itself (horizon reached)", names[-10:]),
                           labels, True)
